@@ -491,7 +491,7 @@ func genC02(r *vh.Runner) {
 			}
 			// a cut tail is accepted only if what the parser finds behind the
 			// datagram happens to equal it: cut again and again (fresh handshakes)
-			for rep := 0; rep < r.Pick(300, 3000); rep++ {
+			for rep := 0; rep < r.Pick(1500, 9000); rep++ {
 				list = append(list, tamper{Hidden: ms.hidden, Msg: mt, Name: name, Kind: "trunc", Len: L - 1 - rep%3})
 			}
 			for lo := 0; lo < len(list); lo += chunk {
